@@ -307,6 +307,211 @@ def install(ex):
                     return err(ex.run(conv, [r.f[0]]))
         return r
 
+    # ------------------------------------------------------------------ more Option / Result combinators (a changed tree may use any of them)
+    def _call_fn(ex, fn, args):
+        if isinstance(fn, Opaque) and 'closure@' not in fn.what:
+            return ex.call(_fn_item_name(fn.what), list(args))
+        return ex.call_closure(fn, list(args))
+
+    def _good(o):
+        return 1 if o.ty == 'Option' else 0
+
+    @M(r'^(Option|Result)::<.*>::map_or::<')
+    def opt_map_or(ex, c, a):
+        o = a[0]
+        return _call_fn(ex, a[2], [o.f[0]]) if o.variant == _good(o) else a[1]
+
+    @M(r'^(Option|Result)::<.*>::map_or_else::<')
+    def opt_map_or_else(ex, c, a):
+        o = a[0]
+        if o.variant == _good(o):
+            return _call_fn(ex, a[2], [o.f[0]])
+        return _call_fn(ex, a[1], [] if o.ty == 'Option' else [o.f[0]])
+
+    @M(r'^(Option|Result)::<.*>::and_then::<')
+    def opt_and_then(ex, c, a):
+        o = a[0]
+        return _call_fn(ex, a[1], [o.f[0]]) if o.variant == _good(o) else o
+
+    @M(r'^Option::<.*>::or_else::<')
+    def opt_or_else(ex, c, a):
+        return a[0] if a[0].variant == 1 else _call_fn(ex, a[1], [])
+
+    @M(r'^Option::<.*>::or$')
+    def opt_or(ex, c, a):
+        return a[0] if a[0].variant == 1 else a[1]
+
+    @M(r'^Option::<.*>::and::<')
+    def opt_and(ex, c, a):
+        return a[1] if a[0].variant == 1 else none()
+
+    @M(r'^Option::<.*>::xor$')
+    def opt_xor(ex, c, a):
+        if a[0].variant == 1 and a[1].variant == 0:
+            return a[0]
+        if a[0].variant == 0 and a[1].variant == 1:
+            return a[1]
+        return none()
+
+    @M(r'^(Option|Result)::<.*>::unwrap_or_else::<')
+    def opt_unwrap_or_else(ex, c, a):
+        o = a[0]
+        if o.variant == _good(o):
+            return o.f[0]
+        return _call_fn(ex, a[1], [] if o.ty == 'Option' else [o.f[0]])
+
+    @M(r'^Result::<.*>::unwrap_or$|^Result::<.*>::unwrap_or::<')
+    def res_unwrap_or(ex, c, a):
+        return a[0].f[0] if a[0].variant == 0 else a[1]
+
+    @M(r'^Result::<.*>::(unwrap_err|expect_err)$')
+    def res_unwrap_err(ex, c, a):
+        if a[0].variant != 1:
+            raise Panic('unwrap_err on Ok', c)
+        return a[0].f[0]
+
+    @M(r'^Result::<.*>::err$')
+    def res_err(ex, c, a):
+        return some(a[0].f[0]) if a[0].variant == 1 else none()
+
+    @M(r'^Result::<.*>::and::<')
+    def res_and(ex, c, a):
+        return a[1] if a[0].variant == 0 else a[0]
+
+    @M(r'^Result::<.*>::or_else::<')
+    def res_or_else(ex, c, a):
+        return a[0] if a[0].variant == 0 else _call_fn(ex, a[1], [a[0].f[0]])
+
+    @M(r'^Option::<.*>::ok_or_else::<')
+    def opt_ok_or_else(ex, c, a):
+        return ok(a[0].f[0]) if a[0].variant == 1 else err(_call_fn(ex, a[1], []))
+
+    @M(r'^Option::<.*>::filter::<')
+    def opt_filter(ex, c, a):
+        o = a[0]
+        if o.variant != 1:
+            return o
+        h = {'v': o.f[0]}
+        return o if ex.concretize_bool(ex.tobool(_call_fn(ex, a[1], [Ref(h, 'v')]))) else none()
+
+    @M(r'^Option::<.*>::(is_some_and|is_none_or)::<')
+    def opt_is_some_and(ex, c, a):
+        o = a[0]
+        if o.variant != 1:
+            return 'is_none_or' in c
+        return ex.tobool(_call_fn(ex, a[1], [o.f[0]]))
+
+    @M(r'^Result::<.*>::(is_ok_and|is_err_and)::<')
+    def res_is_ok_and(ex, c, a):
+        o = a[0]
+        want = 0 if 'is_ok_and' in c else 1
+        if o.variant != want:
+            return False
+        return ex.tobool(_call_fn(ex, a[1], [o.f[0]]))
+
+    @M(r'^Option::<&(mut )?.*>::(copied|cloned)$')
+    def opt_copied(ex, c, a):
+        o = a[0]
+        return some(clone_val(deref(o.f[0]))) if o.variant == 1 else o
+
+    @M(r'^Option::<.*>::zip::<')
+    def opt_zip(ex, c, a):
+        if a[0].variant == 1 and a[1].variant == 1:
+            return some(Agg('tuple', {0: a[0].f[0], 1: a[1].f[0]}))
+        return none()
+
+    @M(r'^Option::<.*>::replace$')
+    def opt_replace(ex, c, a):
+        old = a[0].get()
+        a[0].set(some(a[1]))
+        return old
+
+    @M(r'^Option::<.*>::insert$|^Option::<.*>::get_or_insert$')
+    def opt_insert(ex, c, a):
+        cur = a[0].get()
+        if 'get_or_insert' in c and cur.variant == 1:
+            return Ref(cur.f, 0)
+        nv = some(a[1])
+        a[0].set(nv)
+        return Ref(nv.f, 0)
+
+    @M(r'^Option::<.*>::unwrap_unchecked$|^Result::<.*>::unwrap_unchecked$')
+    def opt_unwrap_unchecked(ex, c, a):
+        return a[0].f[0]
+
+    # ------------------------------------------------------------------ more integer methods
+    @M(r'^core::num::<impl u(\d+|size)>::(saturating_add|saturating_mul)$')
+    def sat_add(ex, c, a):
+        op = 'AddWithOverflow' if 'add' in c else 'MulWithOverflow'
+        r = ex.binop(op, a[0], a[1], False)
+        return b_ite_int(r.f[1], Int(a[0].w, (1 << a[0].w) - 1), r.f[0])
+
+    @M(r'^core::num::<impl u(\d+|size)>::checked_mul$')
+    def checked_mul(ex, c, a):
+        r = ex.binop('MulWithOverflow', a[0], a[1], False)
+        return none() if ex.concretize_bool(r.f[1]) else some(r.f[0])
+
+    @M(r'^core::num::<impl u(\d+|size)>::(checked_div|checked_rem)$')
+    def checked_div(ex, c, a):
+        if ex.concretize_bool(ex.binop('Eq', a[1], Int(a[1].w, 0), False)):
+            return none()
+        return some(ex.binop('Div' if 'div' in c else 'Rem', a[0], a[1], False))
+
+    @M(r'^core::num::<impl u(\d+|size)>::overflowing_sub$')
+    def overflowing_sub(ex, c, a):
+        return ex.binop('SubWithOverflow', a[0], a[1], False)
+
+    @M(r'^core::num::<impl u(\d+|size)>::abs_diff$')
+    def abs_diff(ex, c, a):
+        lt = ex.binop('Lt', a[0], a[1], False)
+        return b_ite_int(lt, ex.binop('Sub', a[1], a[0], False), ex.binop('Sub', a[0], a[1], False))
+
+    @M(r'^core::num::<impl u(\d+|size)>::wrapping_neg$')
+    def wrapping_neg(ex, c, a):
+        return ex.binop('Sub', Int(a[0].w, 0), a[0], False)
+
+    @M(r'^core::num::<impl u(\d+|size)>::(wrapping_shl|wrapping_shr)$')
+    def wrapping_shift(ex, c, a):
+        amt = ex.binop('BitAnd', ex.cast(a[1], 'u' + str(a[0].w) if a[0].w != 64 else 'u64', 'IntToInt'), Int(a[0].w, a[0].w - 1), False)
+        return ex.binop('Shl' if 'shl' in c else 'Shr', a[0], amt, False)
+
+    @M(r'^core::num::<impl u(\d+|size)>::is_power_of_two$')
+    def is_pow2(ex, c, a):
+        x = a[0]
+        m1 = ex.binop('Sub', x, Int(x.w, 1), False)
+        return b_and(b_not(ex.binop('Eq', x, Int(x.w, 0), False)), ex.binop('Eq', ex.binop('BitAnd', x, m1, False), Int(x.w, 0), False))
+
+    @M(r'^core::num::<impl u(\d+|size)>::(swap_bytes|to_be|from_be)$')
+    def swap_bytes(ex, c, a):
+        x = a[0]
+        n = x.w // 8
+        if x.conc:
+            v = 0
+            for i in range(n):
+                v |= ((x.v >> (8 * i)) & 0xff) << (8 * (n - 1 - i))
+            return Int(x.w, v)
+        return Int(x.w, z3.Concat(*[z3.Extract(8 * i + 7, 8 * i, x.v) for i in range(n)]))
+
+    @M(r'^core::num::<impl u(\d+)>::(to_le_bytes|to_ne_bytes)$')
+    def to_le_bytes(ex, c, a):
+        x = a[0]
+        return ListV('array', [Int(8, (x.v >> (8 * i)) & 0xff) if x.conc else mk_int(8, z3.simplify(z3.Extract(8 * i + 7, 8 * i, x.v))) for i in range(x.w // 8)])
+
+    @M(r'^core::num::<impl u(\d+)>::(from_le_bytes|from_ne_bytes)$')
+    def from_le_bytes(ex, c, a):
+        items = list(reversed(a[0].items))
+        if all(b.conc for b in items):
+            v = 0
+            for b in items:
+                v = (v << 8) | b.v
+            return Int(8 * len(items), v)
+        return mk_int(8 * len(items), z3.simplify(z3.Concat(*[b.z() for b in items])))
+
+    @M(r'^<u(\d+|size) as Ord>::clamp$|^core::cmp::Ord::clamp$')
+    def uclamp(ex, c, a):
+        lo = b_ite_int(ex.binop('Lt', a[0], a[1], False), a[1], a[0])
+        return b_ite_int(ex.binop('Gt', lo, a[2], False), a[2], lo)
+
     # ------------------------------------------------------------------ mem / default / misc
     @M(r'^std::mem::take::<|^core::mem::take::<')
     def mem_take(ex, c, a):
@@ -598,14 +803,13 @@ def install(ex):
     @M(r'^<.* as Iterator>::rev$')
     def iter_rev(ex, c, a):
         it = a[0]
-        return IterV(ListV(it.lst.kind, list(reversed(it.lst.items[it.pos:]))), 'valref' if it.mode != 'val' else 'val', 0, it.adapt + [], None) if False else _rev(it)
-
-    def _rev(it):
-        if it.adapt:
-            raise Unsupported('rev after adaptor')
-        n = len(it.lst.items)
-        r = IterV(it.lst, it.mode, 0, [('revidx', n)], None)
-        return r
+        items = []
+        while True:
+            nx = iter_next_val(ex, it)
+            if nx.variant == 0:
+                break
+            items.append(nx.f[0])
+        return IterV(ListV('reversed', list(reversed(items))), 'val')
 
     @M(r'^<.* as Iterator>::next$|^<.* as DoubleEndedIterator>::next_back$')
     def iter_next(ex, c, a):
@@ -1067,6 +1271,301 @@ def install(ex):
     @M(r'^<(u\d+|usize) as Ord>::max$')
     def umax2(ex, c, a):
         return b_ite_int(ex.binop('Ge', a[0], a[1], False), a[0], a[1])
+
+    # ------------------------------------------------------------------ more Vec / VecDeque / map / iterator methods (a changed tree may use any of them)
+    @M(r'^(Vec|VecDeque)::<.*>::retain::<|^(Vec|VecDeque)::<.*>::retain_mut::<')
+    def list_retain(ex, c, a):
+        l = a[0].get()
+        keep = []
+        for x in list(l.items):
+            h = {'x': x}
+            if ex.concretize_bool(ex.tobool(ex.call_closure(a[1], [Ref(h, 'x')]))):
+                keep.append(h['x'])
+        l.items[:] = keep
+        return UNIT
+
+    @M(r'^(BTreeMap|HashMap|DashMap)::<.*>::retain::<')
+    def map_retain(ex, c, a):
+        m = deref(a[0])
+        keep = []
+        for (k, v) in list(m.items):
+            hk, hv = {'k': k}, {'v': v}
+            if ex.concretize_bool(ex.tobool(ex.call_closure(a[1], [Ref(hk, 'k'), Ref(hv, 'v')]))):
+                keep.append((k, hv['v']))
+        m.items[:] = keep
+        return UNIT
+
+    @M(r'^(Vec|VecDeque)::<.*>::insert$')
+    def list_insert(ex, c, a):
+        l = a[0].get()
+        k = a[1].v if a[1].conc else ex.concretize_int(a[1], list(range(len(l.items) + 2)), 'insert index')
+        if k > len(l.items):
+            raise Panic('insertion index out of bounds', c)
+        l.items.insert(k, a[2])
+        return UNIT
+
+    @M(r'^(Vec|VecDeque)::<.*>::truncate$')
+    def list_truncate(ex, c, a):
+        l = a[0].get()
+        k = a[1].v if a[1].conc else ex.concretize_int(a[1], list(range(len(l.items) + 2)), 'truncate length')
+        del l.items[k:]
+        return UNIT
+
+    @M(r'^(Vec|VecDeque)::<.*>::split_off$')
+    def list_split_off(ex, c, a):
+        l = a[0].get()
+        k = a[1].v if a[1].conc else ex.concretize_int(a[1], list(range(len(l.items) + 2)), 'split_off index')
+        if k > len(l.items):
+            raise Panic('split_off index out of bounds', c)
+        tail = l.items[k:]
+        del l.items[k:]
+        return ListV(l.kind, tail)
+
+    @M(r'^(Vec|VecDeque)::<.*>::swap_remove$')
+    def list_swap_remove(ex, c, a):
+        l = a[0].get()
+        k = a[1].v if a[1].conc else ex.concretize_int(a[1], list(range(len(l.items) + 1)), 'swap_remove index')
+        if k >= len(l.items):
+            raise Panic('swap_remove index out of bounds', c)
+        last = l.items.pop()
+        if k < len(l.items):
+            out, l.items[k] = l.items[k], last
+            return out
+        return last
+
+    @M(r'^(Vec|VecDeque)::<.*>::(first|first_mut)$')
+    def list_first2(ex, c, a):
+        l = deref(a[0])
+        return some(Ref(l.items, 0)) if l.items else none()
+
+    @M(r'^(Vec|VecDeque)::<.*>::(last|last_mut)$')
+    def list_last2(ex, c, a):
+        l = deref(a[0])
+        return some(Ref(l.items, len(l.items) - 1)) if l.items else none()
+
+    @M(r'^(Vec|VecDeque)::<.*>::(get|get_mut)::<usize>$|^Vec::<.*>::(get|get_mut)$')
+    def vec_get(ex, c, a):
+        l = deref(a[0])
+        k = a[1].v if a[1].conc else ex.concretize_int(a[1], list(range(len(l.items) + 1)), 'get index')
+        return some(Ref(l.items, k)) if k < len(l.items) else none()
+
+    @M(r'^Vec::<.*>::extend::<|^VecDeque::<.*>::extend::<|^<(Vec|VecDeque)<.*> as Extend<.*>>::extend::<')
+    def list_extend(ex, c, a):
+        l = a[0].get()
+        src = a[1]
+        if isinstance(src, ListV):
+            l.items.extend(src.items)
+        elif isinstance(src, IterV):
+            while True:
+                nx = iter_next_val(ex, src)
+                if nx.variant == 0:
+                    break
+                l.items.append(deref(nx.f[0]) if src.mode in ('ref', 'mut') and not src.adapt else nx.f[0])
+        else:
+            raise Unsupported('extend from ' + repr(src)[:40])
+        return UNIT
+
+    @M(r'^(core::slice::<impl \[.*\]>|<\[.*\]>|Vec::<.*>|VecDeque::<.*>)::contains$')
+    def list_contains(ex, c, a):
+        l = deref(a[0])
+        x = deref(a[1])
+        acc = False
+        for it in l.items:
+            acc = b_or(acc, ex.binop('Eq', it, x, False) if isinstance(it, (Int, bool)) else key_eq(ex, it, x))
+        return acc
+
+    @M(r'^(core::slice::<impl \[.*\]>|<\[.*\]>)::split_at$')
+    def slice_split_at(ex, c, a):
+        l = deref(a[0])
+        k = a[1].v if a[1].conc else ex.concretize_int(a[1], list(range(len(l.items) + 2)), 'split_at index')
+        if k > len(l.items):
+            raise Panic('mid > len', c)
+        return Agg('tuple', {0: Ref({'v': ListV('slice', l.items[:k])}, 'v'), 1: Ref({'v': ListV('slice', l.items[k:])}, 'v')})
+
+    @M(r'^(VecDeque|Vec)::<.*>::(iter|iter_mut)$')
+    def list_iter2(ex, c, a):
+        return IterV(deref(a[0]), 'mut' if c.endswith('iter_mut') else 'ref')
+
+    @M(r'^(BTreeMap|HashMap)::<.*>::(values|values_mut)$')
+    def map_values(ex, c, a):
+        m = deref(a[0])
+        return IterV(ListV('values', [Ref(_PairRef(m.items, i), 1) for i in range(len(m.items))]), 'val')
+
+    @M(r'^(BTreeMap|HashMap|BTreeSet)::<.*>::keys$')
+    def map_keys(ex, c, a):
+        m = deref(a[0])
+        return IterV(ListV('keys', [Ref(_PairRef(m.items, i), 0) for i in range(len(m.items))]), 'val')
+
+    @M(r'^HashMap::<.*>::(iter|iter_mut)$')
+    def hashmap_iter(ex, c, a):
+        m = deref(a[0])
+        return IterV(ListV('map-iter', [Agg('tuple', {0: Ref(_PairRef(m.items, i), 0), 1: Ref(_PairRef(m.items, i), 1)}) for i in range(len(m.items))]), 'val')
+
+    @M(r'^BTreeMap::<.*>::(first_key_value|last_key_value)$')
+    def btree_first(ex, c, a):
+        m = deref(a[0])
+        if not m.items:
+            return none()
+        i = 0 if 'first' in c else len(m.items) - 1
+        return some(Agg('tuple', {0: Ref(_PairRef(m.items, i), 0), 1: Ref(_PairRef(m.items, i), 1)}))
+
+    @M(r'^BTreeSet::<.*>::(first|last)$')
+    def btreeset_first(ex, c, a):
+        m = deref(a[0])
+        if not m.items:
+            return none()
+        return some(Ref(_PairRef(m.items, 0 if c.endswith('first') else len(m.items) - 1), 0))
+
+    @M(r'^<.* as Iterator>::(filter|skip_while|take_while)::<')
+    def iter_filter(ex, c, a):
+        it = a[0]
+        kind = re.search(r'::(filter|skip_while|take_while)::<', c).group(1)
+        out = []
+        state = 'skipping' if kind == 'skip_while' else 'taking'
+        while True:
+            nx = iter_next_val(ex, it)
+            if nx.variant == 0:
+                break
+            v = nx.f[0]
+            h = {'v': v}
+            if kind == 'filter':
+                if ex.concretize_bool(ex.tobool(ex.call_closure(a[1], [Ref(h, 'v')]))):
+                    out.append(v)
+            elif kind == 'take_while':
+                if not ex.concretize_bool(ex.tobool(ex.call_closure(a[1], [Ref(h, 'v')]))):
+                    break
+                out.append(v)
+            else:
+                if state == 'skipping' and ex.concretize_bool(ex.tobool(ex.call_closure(a[1], [Ref(h, 'v')]))):
+                    continue
+                state = 'taking'
+                out.append(v)
+        return IterV(ListV('filtered', out), 'val')
+
+    @M(r'^<.* as Iterator>::filter_map::<')
+    def iter_filter_map(ex, c, a):
+        it = a[0]
+        out = []
+        while True:
+            nx = iter_next_val(ex, it)
+            if nx.variant == 0:
+                break
+            r = ex.call_closure(a[1], [nx.f[0]])
+            if r.variant == 1:
+                out.append(r.f[0])
+        return IterV(ListV('filtered', out), 'val')
+
+    @M(r'^<.* as Iterator>::(find|find_map|position|rposition)::<')
+    def iter_find(ex, c, a):
+        it = a[0].get() if isinstance(a[0], Ref) else a[0]
+        kind = re.search(r'::(find_map|find|position|rposition)::<', c).group(1)
+        i = 0
+        while True:
+            nx = iter_next_val(ex, it)
+            if nx.variant == 0:
+                return none()
+            v = nx.f[0]
+            if kind == 'find_map':
+                r = ex.call_closure(a[1], [v])
+                if r.variant == 1:
+                    return r
+            else:
+                h = {'v': v}
+                arg = Ref(h, 'v') if kind == 'find' else v
+                if ex.concretize_bool(ex.tobool(ex.call_closure(a[1], [arg]))):
+                    return some(v) if kind == 'find' else some(Int(64, i))
+            i += 1
+
+    @M(r'^<.* as Iterator>::fold::<')
+    def iter_fold(ex, c, a):
+        it = a[0]
+        acc = a[1]
+        while True:
+            nx = iter_next_val(ex, it)
+            if nx.variant == 0:
+                return acc
+            acc = ex.call_closure(a[2], [acc, nx.f[0]])
+
+    @M(r'^<.* as Iterator>::(enumerate|skip|take|step_by|chain|zip|peekable|fuse|by_ref)(::<.*>)?$')
+    def iter_misc(ex, c, a):
+        kind = re.search(r'::(enumerate|skip|take|step_by|chain|zip|peekable|fuse|by_ref)(::<.*>)?$', c).group(1)
+        it = a[0].get() if isinstance(a[0], Ref) else a[0]
+        if kind in ('peekable', 'fuse', 'by_ref'):
+            return a[0]
+        items = []
+        while True:
+            nx = iter_next_val(ex, it)
+            if nx.variant == 0:
+                break
+            items.append(nx.f[0])
+        if kind == 'enumerate':
+            items = [Agg('tuple', {0: Int(64, i), 1: v}) for i, v in enumerate(items)]
+        elif kind in ('skip', 'take', 'step_by'):
+            k = a[1].v if a[1].conc else ex.concretize_int(a[1], list(range(len(items) + 2)), kind)
+            items = items[k:] if kind == 'skip' else (items[:k] if kind == 'take' else items[::max(k, 1)])
+        elif kind in ('chain', 'zip'):
+            other = a[1]
+            if isinstance(other, ListV):
+                other = IterV(other, 'val')
+            o_items = []
+            while True:
+                nx = iter_next_val(ex, other)
+                if nx.variant == 0:
+                    break
+                o_items.append(nx.f[0])
+            items = items + o_items if kind == 'chain' else [Agg('tuple', {0: x, 1: y}) for x, y in zip(items, o_items)]
+        return IterV(ListV('adapted', items), 'val')
+
+    @M(r'^<.* as Iterator>::last$')
+    def iter_last(ex, c, a):
+        it = a[0]
+        r = none()
+        while True:
+            nx = iter_next_val(ex, it)
+            if nx.variant == 0:
+                return r
+            r = nx
+
+    @M(r'^<.* as Iterator>::(max|min)$|^<.* as Iterator>::(max_by_key|min_by_key)::<')
+    def iter_minmax(ex, c, a):
+        it = a[0]
+        kind = re.search(r'::(max_by_key|min_by_key|max|min)', c).group(1)
+        best, bestk = None, None
+        while True:
+            nx = iter_next_val(ex, it)
+            if nx.variant == 0:
+                break
+            v = nx.f[0]
+            if 'by_key' in kind:
+                h = {'v': v}
+                k = ex.call_closure(a[1], [Ref(h, 'v')])
+            else:
+                k = deref(v)
+            if not isinstance(k, Int):
+                raise Unsupported('min/max over non-integer keys')
+            if best is None:
+                best, bestk = v, k
+            else:
+                # std: max returns the LAST maximum, min the FIRST minimum
+                better = ex.binop('Ge', k, bestk, False) if kind.startswith('max') else ex.binop('Lt', k, bestk, False)
+                if ex.concretize_bool(better):
+                    best, bestk = v, k
+        return some(best) if best is not None else none()
+
+    @M(r'^<.* as DoubleEndedIterator>::(rev|rfind)')
+    def iter_rev2(ex, c, a):
+        it = a[0]
+        items = []
+        while True:
+            nx = iter_next_val(ex, it)
+            if nx.variant == 0:
+                break
+            items.append(nx.f[0])
+        return IterV(ListV('reversed', list(reversed(items))), 'val')
+
+    @M(r'^<.* as Iterator>::collect::<(BTreeSet|HashSet)<')
+    def iter_collect_set(ex, c, a):
+        raise Unsupported('collect into a set')
 
     # ------------------------------------------------------------------ BinaryHeap (the std algorithm, element order = crate's Ord::cmp MIR)
     def heap_le(ex, c, x, y):
